@@ -370,6 +370,16 @@ func (p *queryPlan) processClause(ctx context.Context, cls *semantic.GraphClause
 			}
 			return false, p.tbl.DotProduct(tbl)
 		}
+		if cls.Optional && tbl.NumRows() == 0 {
+			// Only clauses without bindings came before (all satisfied), so
+			// there is exactly one solution so far: it stays, with empty cells
+			// for the bindings of the optional clause that found no match.
+			nr := make(table.Row)
+			for _, b := range tbl.Bindings() {
+				nr[b] = &table.Cell{}
+			}
+			tbl.AddRow(nr)
+		}
 		return false, p.tbl.AppendTable(tbl)
 	}
 
